@@ -39,7 +39,7 @@ func (w *vFailW) Write(b []byte) (int, error) {
 		return n, vWriteErr
 	}
 	w.accepted += len(b)
-	w.chunks = append(w.chunks, b)
+	w.chunks = append(w.chunks, verifKeep(b))
 	return len(b), nil
 }
 
